@@ -181,15 +181,19 @@ func CheckC19(s *Src, o *vh.Out) string {
 		key := "formatted-does-not-parse"
 		if intBeforeEllipsis.MatchString(out) && !intBeforeEllipsis.MatchString(s.Text) {
 			key += ":int-literal-before-ellipsis"
+		} else if leadingEmptyTopLevel(Dump(f1)) {
+			key = "empty-statement-removed:leading-top-level"
 		}
 		o.Oracle(key, s.Line, firstLine(err.Error()))
 		return "REPARSE-FAILS " + firstLine(err.Error())
 	}
 	d1, d2 := Dump(f1), Dump(f2)
-	if key, path, ok := FirstDiff(d1, d2); !ok {
-		o.Oracle(key, s.Line, "at "+path)
+	if keys, path, ok := Classify(d1, d2); !ok {
+		for _, key := range keys {
+			o.Oracle(key, s.Line, "at "+path)
+		}
 		o.Count("tree_differs")
-		return "DIFF " + key
+		return "DIFF " + strings.Join(keys, "+")
 	}
 	if out != s.Text {
 		o.Count("formatting_changed_text")
@@ -199,7 +203,7 @@ func CheckC19(s *Src, o *vh.Out) string {
 
 // CheckC20: formatting is idempotent.
 func CheckC20(s *Src, o *vh.Out) string {
-	_, _, err := ParseSrc(s)
+	_, f0, err := ParseSrc(s)
 	if err != nil {
 		o.Count("src_invalid")
 		return "INVALID"
@@ -215,12 +219,14 @@ func CheckC20(s *Src, o *vh.Out) string {
 		key := errKey("format2", err)
 		if intBeforeEllipsis.MatchString(out) && !intBeforeEllipsis.MatchString(s.Text) {
 			key += ":int-literal-before-ellipsis"
+		} else if leadingEmptyTopLevel(Dump(f0)) {
+			key += ":leading-top-level-empty-statement"
 		}
 		o.Oracle(key, s.Line, firstLine(err.Error()))
 		return "FORMAT2-FAILS " + firstLine(err.Error())
 	}
 	if out2 != out {
-		key, detail := idemKey(out, out2)
+		key, detail := idemKey(out, out2, hasExplicitEmptyStmt(f0, s.Text))
 		o.Oracle(key, s.Line, detail)
 		o.Count("not_idempotent")
 		return "NOT-IDEMPOTENT " + key
@@ -231,27 +237,117 @@ func CheckC20(s *Src, o *vh.Out) string {
 	return "ok"
 }
 
-// idemKey classifies the first line at which two formatting passes differ.
-func idemKey(a, b string) (string, string) {
-	la, lb := strings.Split(a, "\n"), strings.Split(b, "\n")
-	for i := 0; i < len(la) && i < len(lb); i++ {
-		if la[i] != lb[i] {
-			ta, tb := strings.Fields(la[i]), strings.Fields(lb[i])
-			kind := "layout"
-			if strings.Join(ta, "") != strings.Join(tb, "") {
-				kind = "text"
-			} else if strings.Join(ta, " ") == strings.TrimSpace(lb[i]) && strings.Contains(strings.TrimSpace(la[i]), "  ") {
-				// the first pass padded a cell (tabwriter alignment derived from the line
-				// structure of the source); the second pass, seeing the joined lines, does not
-				kind = "alignment-padding-removed"
-			} else if strings.Contains(la[i], "//") || strings.Contains(la[i], "/*") || strings.Contains(la[i], "#") ||
-				strings.Contains(lb[i], "//") || strings.Contains(lb[i], "/*") {
-				kind += "-near-comment"
-			}
-			return "second-pass-differs:" + kind, fmt.Sprintf("line %d: %q vs %q", i+1, la[i], lb[i])
+// squeeze drops white space and the optional comma before a closing bracket.
+func squeeze(s string) string {
+	s = squeeze0(s)
+	for _, c := range []string{")", "]", "}"} {
+		s = strings.ReplaceAll(s, ","+c, c)
+	}
+	return s
+}
+
+func squeeze0(s string) string {
+	return strings.Map(func(r rune) rune {
+		if r == ' ' || r == '\t' || r == '\n' || r == '\r' || r == '\f' {
+			return -1
+		}
+		return r
+	}, s)
+}
+
+func nonEmptyLines(s string) []string {
+	var l []string
+	for _, x := range strings.Split(s, "\n") {
+		if strings.TrimSpace(x) != "" {
+			l = append(l, x)
 		}
 	}
-	return "second-pass-differs:length", fmt.Sprintf("%d vs %d lines", len(la), len(lb))
+	return l
+}
+
+// idemKey classifies the difference between two formatting passes: `text` (tokens differ),
+// or a layout-only class (blank lines, line breaks, alignment padding, blanks).
+func idemKey(a, b string, srcHasEmptyStmt bool) (string, string) {
+	la, lb := strings.Split(a, "\n"), strings.Split(b, "\n")
+	detail := fmt.Sprintf("%d vs %d lines", len(la), len(lb))
+	first := ""
+	for i := 0; i < len(la) && i < len(lb); i++ {
+		if la[i] != lb[i] {
+			detail = fmt.Sprintf("line %d: %q vs %q", i+1, la[i], lb[i])
+			first = la[i]
+			break
+		}
+	}
+	if squeeze(a) != squeeze(b) {
+		return "second-pass-differs:text", detail
+	}
+	na, nb := nonEmptyLines(a), nonEmptyLines(b)
+	if strings.Join(na, "\n") == strings.Join(nb, "\n") {
+		if srcHasEmptyStmt {
+			return "second-pass-differs:blank-line-left-by-empty-statement", detail
+		}
+		return "second-pass-differs:blank-lines", detail
+	}
+	if len(na) != len(nb) {
+		t := strings.TrimSpace(first)
+		if strings.HasPrefix(t, "if ") || strings.HasPrefix(t, "for ") || strings.HasPrefix(t, "switch ") || strings.HasPrefix(t, "} else if ") {
+			return "second-pass-differs:line-breaks-in-control-clause", detail
+		}
+		return "second-pass-differs:line-breaks", detail
+	}
+	// same lines, different blanks inside a line
+	for i := range na {
+		if na[i] != nb[i] {
+			ta, tb := strings.Fields(na[i]), strings.Fields(nb[i])
+			if strings.Join(ta, " ") == strings.TrimSpace(nb[i]) && strings.Contains(strings.TrimSpace(na[i]), "  ") {
+				return "second-pass-differs:alignment-padding-removed", detail
+			}
+			_ = tb
+			if strings.Contains(na[i], "//") || strings.Contains(na[i], "/*") {
+				if inImportBlock(na, i) {
+					// after sorting / de-duplicating the specs, their comments are aligned one pass late
+					return "second-pass-differs:import-comment-alignment", detail
+				}
+				return "second-pass-differs:layout-near-comment", detail
+			}
+			return "second-pass-differs:layout", detail
+		}
+	}
+	return "second-pass-differs:layout", detail
+}
+
+func inImportBlock(lines []string, i int) bool {
+	for j := i; j >= 0; j-- {
+		t := strings.TrimSpace(lines[j])
+		if strings.HasPrefix(t, "import (") {
+			return true
+		}
+		if j < i && strings.HasPrefix(t, ")") {
+			return false
+		}
+	}
+	return false
+}
+
+func hasExplicitEmptyStmt(f *ast.File, src string) bool {
+	found := false
+	ast.Inspect(f, func(n ast.Node) bool {
+		if e, ok := n.(*ast.EmptyStmt); ok && !e.Implicit {
+			found = true
+		}
+		return !found
+	})
+	if found {
+		return true
+	}
+	// stray ';' between top-level declarations are not in the tree
+	for _, l := range strings.Split(src, "\n") {
+		t := strings.TrimSpace(l)
+		if t == ";" || strings.HasSuffix(t, ";;") || strings.HasSuffix(t, ");") || strings.HasSuffix(t, "};") {
+			return true
+		}
+	}
+	return false
 }
 
 // PrintFile prints an AST with the formatter's configuration.
